@@ -60,6 +60,22 @@ Definition okeb (lk : bool) (g : nat) (e : expr) : bool :=
 
 Section Scope.
 Variable bs : N -> bool.
+(* every group a back-reference or a (?(N)..) test reads is in the analyzer's back-reference set *)
+Fixpoint refsb (e : expr) : bool :=
+  match e with
+  | Backref grp | BackrefExistsCondition grp => bs grp
+  | Concat es | Alt es => (fix go (l : list expr) : bool := match l with [] => true | x :: r => refsb x && go r end) es
+  | Group c | LookAround c _ | Repeat c _ _ _ | AtomicGroup c => refsb c
+  | Conditional c y n => refsb c && refsb y && refsb n
+  | _ => true
+  end.
+(* the pattern is compiled to a VM program and lies inside the end-to-end theorem for every
+   compiled program (stage 3): nothing is asked of the Delegate instructions *)
+Definition in_scope_all (e : expr) : bool :=
+  match compile bs (wrap e) with
+  | inr p => okeb true 0 (wrap e) && refsb (wrap e)
+  | inl _ => false
+  end.
 (* the pattern is compiled to a VM program and lies inside the end-to-end theorem *)
 Definition in_scope (e : expr) : bool :=
   match compile bs (wrap e) with
